@@ -199,7 +199,8 @@ class PhasePredictor(QTable):
             raise ValueError("Given phase seems to be outside predictor range!")
 
         def func(x):
-            return (self(a + x * u.s) - phase).value
+            # (adding to a UTC time is not bit-exact: stay inside the interval)
+            return (self(max(a, min(b, a + x * u.s))) - phase).value
 
         length = (b - a).to_value(u.s)
         if func(0.0) >= 0:
@@ -208,7 +209,7 @@ class PhasePredictor(QTable):
             return b
 
         x = scipy.optimize.brentq(func, 0.0, length, xtol=1e-12, rtol=1e-15)
-        t = a + x * u.s
+        t = max(a, min(b, a + x * u.s))
         # A float64 offset from the start of a long interval is too coarse:
         # polish the root with Newton steps on the timestamp itself.
         for _ in range(2):
